@@ -201,30 +201,30 @@ def coq_case(out, multi, cores, ids):
                 if e[2] == 1:
                     rec["run"].append(e[1])
                     leg_et[e[1]] = li
-                log.append("EStage _ %d %s" % (e[1], STAGES[e[2]]))
+                log.append("EStage _ %d%%nat %s" % (e[1], STAGES[e[2]]))
             elif k == "et":
                 rec["run"].append(e[1])
                 leg_et[e[1]] = li
-                log.append("EEt _ %d" % e[1])
+                log.append("EEt _ %d%%nat" % e[1])
             elif k == "push":
                 if not is_nonneg(e[2]):
                     return None
                 rec["times"][e[1]] = time_key(e[2])
-                log.append("EPush _ %d %d" % (e[1], time_key(e[2])))
+                log.append("EPush _ %d%%nat %d" % (e[1], time_key(e[2])))
             elif k == "get":
-                log.append("EPick _ %d" % e[1])
+                log.append("EPick _ %d%%nat" % e[1])
             elif k == "os":
                 recs[leg_et[e[1]]]["outs"].append((e[1], ids(e[2])))
-                log.append("EOsSet _ %d %d" % (e[1], ids(e[2])))
+                log.append("EOsSet _ %d%%nat %d" % (e[1], ids(e[2])))
             elif k == "os_del":
-                log.append("EOsDel _ %d" % e[1])
+                log.append("EOsDel _ %d%%nat" % e[1])
             elif k == "commit":
                 if not multi:
                     recs[leg_et[e[1]]]["outs"].append((e[1], ids(e[3])))
-                log.append("ECommit _ %d %d %d" % (e[1], time_key(e[2]), ids(e[3])))
+                log.append("ECommit _ %d%%nat %d %d" % (e[1], time_key(e[2]), ids(e[3])))
             elif k == "trash":
                 rec["trash"].append(e[1])
-                log.append("ETrash _ %d" % e[1])
+                log.append("ETrash _ %d%%nat" % e[1])
             elif k == "wait":
                 rec["batches"].append(e[1])
     legterms = []
